@@ -1,5 +1,13 @@
 package main
 
+import (
+	"fmt"
+	"go/constant"
+	"go/types"
+	"path/filepath"
+	"strings"
+)
+
 // Which obligations and which components belong to which property
 // (DESIGN.md Appendix B: a property owns name patterns × components).
 
@@ -195,5 +203,36 @@ func init() {
 		r.verifyHelpers(ld, propFilter("C15"))
 		r.Assumptions["C15: reflect.DeepEqual on two map[uint16]uint8 values = both nil or both non-nil with the same keys and values (stub)"] = true
 		r.Assumptions["C15: distinct slice arguments do not alias (Put's data and the store)"] = true
+	}
+}
+
+func init() {
+	checks["C17"] = func(ld *Loaded, r *Run) {
+		if ld.cimErr != "" {
+			r.engineErr = append(r.engineErr, "cannot read the exerciser images: "+ld.cimErr)
+			return
+		}
+		// the images are the canonical ones (pinned digests)
+		sc := ld.pkgs[modPath+"/internal/zex"].Pkg.Scope()
+		for _, n := range []string{"Zexdoc", "Zexall"} {
+			want := ""
+			if c, ok := sc.Lookup("vsDigest" + n).(*types.Const); ok {
+				want = constant.StringVal(c.Val())
+			}
+			got := fileDigest(filepath.Join(ld.repo, "cmd", "zexdoc", strings.ToLower(n)+".cim"))
+			o := &OblResult{Name: "zex.image[" + strings.ToLower(n) + ".cim]/sha256", Layer: "P", Backend: "sha256"}
+			if got == want && want != "" {
+				o.Status = "discharged"
+				r.add(o)
+			} else {
+				o.Status, o.Note = "failed", fmt.Sprintf("cmd/zexdoc/%s.cim has SHA-256 %s, the canonical image pinned in /verif/spec/zex has %s", strings.ToLower(n), got, want)
+				o.res = &SolveResult{Status: "structure", Raw: o.Note, Backend: "sha256"}
+				r.add(o)
+				r.reportFailures(ld, []*OblResult{o}, nil)
+			}
+		}
+		r.checkLemmas(ld, "C17")
+		r.Notes["ground"] = "all obligations are ground (no quantified input): decided by symbolic execution of the real package initialiser and Status.Bytes() with constant folding"
+		r.Trusted["pinned SHA-256 digests of cmd/zexdoc/zexdoc.cim and zexall.cim in /verif/spec/zex/lemmas.go (taken from the pristine tree)"] = true
 	}
 }
